@@ -388,6 +388,10 @@ func genAResp(r *vlib.R, kind int) string {
 		if r.Chance(1, 6) {
 			rs = append(rs, "o/30/"+term)
 		}
+		if r.Chance(1, 4) {
+			// the A RRset's owner in the letter case the target zone stores (tokens 11..19)
+			term = "1" + term
+		}
 		return "n;0;" + rrsStr(append(rs, as(term)...))
 	case 2:
 		rs := []string{}
